@@ -347,6 +347,7 @@ type LoopSpec struct {
 	Exact      bool // unroll declared exact (unwinding obligation must discharge)
 	Decreases  *Clause
 	Increases  *Clause // progress measure: strictly larger after every iteration
+	Exits      []*Clause // loop postconditions: must hold on every exit edge
 }
 
 type Param struct{ Name, Type string }
@@ -703,6 +704,12 @@ func (cs *ContractSet) addClause(c *FuncContract, kw, text, file string, line in
 				return err
 			}
 			ls.Decreases = cl
+		case "exit":
+			cl, err := mk("exit", rest)
+			if err != nil {
+				return err
+			}
+			ls.Exits = append(ls.Exits, cl)
 		case "increases":
 			cl, err := mk("increases", rest)
 			if err != nil {
